@@ -65,6 +65,17 @@ def save_race_witness(wt):
 
 def corpus():
     cs = []
+    # read-modify-write through the store (Get, change the returned object in place, Save it) must be persisted;
+    # saving identical content again is legitimately a no-op
+    for wt in (True, False):
+        cs.append({"n": 1, "init": [cond(b"b.state", b"b", 0, 0, 4)], "ops": [
+            {"op": "restart", "shard": 0, "wt": wt}, {"op": "load", "o": "ok"},
+            {"op": "save", "c": cond(b"a.state", b"a", 1, 1, 1)}, {"op": "save", "c": cond(b"a.state", b"a", 1, 1, 1)},
+            {"op": "rmw", "c": cond(b"a.state", b"a", 2, 1, 9)}, {"op": "rmw", "c": cond(b"a.state", b"a", 2, 3, 9)},
+            {"op": "rmw", "c": cond(b"b.state", b"b", 5, 5, 9)}, {"op": "rmw", "c": cond(b"a.g1", b"a", 7, 7, 7)},
+            {"op": "rmw", "c": cond(b"a.g1", b"a", 7, 7, 7)}, {"op": "save", "c": cond(b"a.g1", b"a", 7, 7, 7)},
+            {"op": "flush"}, {"op": "rmw", "c": cond(b"a.state", b"a", 4, 4, 9)},
+            {"op": "restart", "shard": 0, "wt": wt}, {"op": "load", "o": "ok"}]})
     # a write-through Save racing a flush: the flush must not overwrite the acknowledged newer version
     cs.append(save_race_witness(True))
     cs.append(save_race_witness(False))
@@ -177,6 +188,7 @@ def gen_hist(rng, wfok=True, nops=(6, 16)):
     if rng.chance(2, 3):
         ops.append({"op": "load", "o": "ok"})
     need_restart = False
+    last = {}             # key -> last content saved with a fresh object
     saved = []            # keys saved so far: interleaved operations are aimed at items a flush will really write
     for _ in range(rng.randint(*nops)):
         if need_restart and rng.chance(4, 5):
@@ -188,11 +200,21 @@ def gen_hist(rng, wfok=True, nops=(6, 16)):
             continue
         k = rng.below(100)
         faulty = rng.chance(2, 5)
+        if saved and rng.chance(1, 7):
+            # read-modify-write of something saved earlier / saving identical content again (no faults injected:
+            # the object is changed in place before the Save, which the model does not distinguish)
+            key = rng.choice(sorted(set(saved)))
+            if rng.chance(2, 3):
+                ops.append({"op": "rmw", "c": cond(key[1], key[0], rng.randint(0, 9), rng.randint(0, 9), 0)})
+            elif key in last:
+                ops.append({"op": "save", "c": dict(last[key])})
+            continue
         if k < 36:
             c = rand_cond(rng, wfok)
             op = {"op": "save", "c": c}
             names = [bytes(c["name"])]
             saved.append((bytes(c["up"]), bytes(c["name"])))
+            last[(bytes(c["up"]), bytes(c["name"]))] = c
         elif k < 48:
             u = rng.choice(UPS)
             if not wfok and rng.chance(1, 3):
@@ -311,8 +333,15 @@ def c_keys(keys):
     return clist([cpair(cstr(k["up"]), cstr(k["name"])) for k in keys])
 
 
-def c_op(o, s):
+def c_op(o, s, prev=None):
     k = o["op"]
+    if k == "rmw":
+        # in the model a read-modify-write is a Save of the new content; the object keeps the label it had in the store
+        c = dict(o["c"])
+        for e in (prev or {}).get("loc") or []:
+            if e["up"] == c["up"] and e["name"] == c["name"]:
+                c["lab"] = e["lab"]
+        return "(OFg (FSave %s) [])" % c_cond(c)
     if k in ("save", "delete", "delup"):
         return "(OFg %s %s)" % (c_fop(o, s.get("dord") or []), c_plan(o.get("plan")))
     if k == "flush":
@@ -356,7 +385,7 @@ def coq_case(case, obs):
     if steps is None or len(steps) != len(case["ops"]):
         # a panic inside the harness: emit a one-step trace the model cannot agree with
         return "(CHist 1 [] [(ORestart 0 true, mkObs RBad [] [] [] [])])"
-    tr = [cpair(c_op(o, s), c_obs(o, s)) for o, s in zip(case["ops"], steps)]
+    tr = [cpair(c_op(o, s, steps[k - 1] if k else None), c_obs(o, s)) for k, (o, s) in enumerate(zip(case["ops"], steps))]
     return "(CHist %s %s %s)" % (cZ(case["n"]), c_api(case["init"]), clist(tr))
 
 
@@ -369,7 +398,7 @@ def nontrivial_key(case, obs):
     fault_at = None
     ok = False
     for idx, (o, s) in enumerate(zip(case["ops"], steps)):
-        if o["op"] == "save":
+        if o["op"] in ("save", "rmw"):
             saved = True
         if fault_at is None and s.get("calls", 0) >= 1 and any(x != "ok" for p in (o.get("plan") or []) for x in p["q"]):
             fault_at = idx
